@@ -491,6 +491,38 @@ func TestC16(t *testing.T) {
 			time.Sleep(time.Duration(c.Int("settle.us", 0, 300)) * time.Microsecond)
 			w.check(fmt.Sprintf("after event %d", ev+1))
 		}
+		// Last act in one case of three: a router shuts its peering down (all its
+		// links are closed by the manager) while another setup with it is under way.
+		// Nothing is asserted about the registry afterwards; the run must neither
+		// crash nor show a data race.
+		if !w.inconcl && c.Chance("shutdown", 1, 3) {
+			i := c.Int("shutdown.node", 0, n-1)
+			j := c.Int("shutdown.peer", 0, n-2)
+			if j >= i {
+				j++
+			}
+			a, b := i, j
+			if c.Bool("shutdown.dials") {
+				a, b = j, i
+			}
+			w.log("n%d shuts its peering down while a setup n%d->n%d is under way", i, a, b)
+			cc := &c16Conn{conn: wire.Dial(w.nodes[a], w.nodes[b]), a: a, b: b}
+			w.conns = append(w.conns, cc)
+			stopped := make(chan struct{})
+			delay := time.Duration(c.Int("shutdown.delay.us", 0, 8000)) * time.Microsecond
+			go func() {
+				defer close(stopped)
+				time.Sleep(delay)
+				_ = w.nodes[i].Peer.Stop()
+			}()
+			w.drive([]*c16Conn{cc}, true, -1)
+			select {
+			case <-stopped:
+			case <-time.After(wire.Budget):
+				c.Fatalf("Peering.Stop of n%d did not return (events: %s)", i, strings.Join(w.ops, "; "))
+			}
+			c.Class("shutdown-during-setup")
+		}
 		if w.inconcl {
 			c.Class("inconclusive-time-budget")
 		}
